@@ -362,8 +362,8 @@ MUTANTS = [
   "        return material, geometry, (options + ' ' + but_options)",
   "        return material, geometry, (but_options + ' ' + options)"),
  ('C15-2', 'C15', K + 'FileHandlers/Parser/ParseMCNPCell.py',
-  "            elif 'rho' in elt:\n                # only relevant for LIKE n BUT cells\n                keywords['density'] = kw_list.pop()",
-  "            elif 'rho' in elt:\n                # only relevant for LIKE n BUT cells\n                kw_list.pop()"),
+  "            elif name == 'rho':\n                # only relevant for LIKE n BUT cells\n                keywords['density'] = kw_list.pop()",
+  "            elif name == 'rho':\n                # only relevant for LIKE n BUT cells\n                kw_list.pop()"),
  ('C15-3', 'C15', K + 'FileHandlers/Parser/ParseMCNPCell.py',
   "        match_like = self.LIKE_RE.search(parsed_cell[1].lower())\n        while match_like:",
   "        match_like = self.LIKE_RE.search(parsed_cell[1].lower())\n        for _once in ([1] if match_like else []):"),
